@@ -20,8 +20,8 @@ RULE = ("continuous Line/CubicBezier paths of 1-6 segments built from headings: 
 ASSUMPTIONS = ["180-degree reversals (corner angle > 179.95 deg) are excluded as the property says", "tangents at joints are computed from "
                "reference derivatives with the one-sided-limit rule of C15",
                "distance to the input path is measured against a 4000-point flattening (slack = its chord sagitta bound + 1e-9*size)"]
-CONFIGS = ['scipy']
-BUDGET = {'quick': 6000, 'thorough': 100000}
+CONFIGS = ['scipy', 'noscipy']
+BUDGET = {'quick': {'scipy': 6000, 'noscipy': 64}, 'thorough': {'scipy': 100000, 'noscipy': 1500}}
 REQUIRED = ['closing_joint_already_smooth', 'joint:LL', 'joint:LC', 'joint:CL', 'joint:CC', 'closed', 'open', 'already_smooth_joint', 'single_segment', 'smoothed',
             'cubic_coincident_end_control', 'closing_joint_smoothed', 'loop_cubic']
 CASE_TIMEOUT = 60
@@ -31,9 +31,10 @@ EPS = 2.0 ** -52
 
 
 @st.composite
-def path_case(draw):
-    sc = draw(st.sampled_from([1e-2, 1.0, 1.0, 1e2]))
-    n = draw(st.sampled_from([1, 2, 2, 3, 3, 4, 5, 6]))
+def path_case(draw, config='scipy'):
+    sc = draw(st.sampled_from([1e-2, 1.0, 1.0, 1e2] if config == 'scipy' else [1.0]))
+    # (without scipy every joint costs of the order of a second: short paths at unit scale)
+    n = draw(st.sampled_from([1, 2, 2, 3, 3, 4, 5, 6] if config == 'scipy' else [2, 2, 3]))
     mj = draw(st.one_of(st.sampled_from([3.0, 1.0, 0.1]), gen.floats_in(0.01, 10.0))) * sc
     tight = draw(st.one_of(st.sampled_from([1.99, 1.0, 0.5]), gen.floats_in(0.01, 1.99)))
     heading = draw(gen.floats_in(-math.pi, math.pi))
@@ -44,9 +45,10 @@ def path_case(draw):
             turn = draw(st.one_of(st.just(0.0), st.just(0.0), gen.floats_in(0.5, 179.0), gen.floats_in(0.5, 179.0),
                                   st.sampled_from([90.0, 45.0, 135.0, 1.0, 170.0, 179.5, 179.9])))
             heading += math.radians(turn) * draw(st.sampled_from([1, -1]))
-        L = mj * draw(st.one_of(st.sampled_from([0.05, 0.5, 1.0, 5.0, 50.0]), gen.floats_in(0.05, 50.0)))
+        L = mj * draw(st.one_of(st.sampled_from([0.05, 0.5, 1.0, 5.0, 50.0, 200.0, 1000.0]), gen.floats_in(0.05, 50.0)))
         d_in = complex(math.cos(heading), math.sin(heading))
-        kind = draw(st.sampled_from(['L', 'L', 'L', 'C', 'C', 'C', 'Cs', 'Cs', 'Ce', 'Ce', 'Cloop']))
+        kind = draw(st.sampled_from(['L', 'L', 'L', 'C', 'C', 'C', 'Cs', 'Cs', 'Ce', 'Ce', 'Cloop', 'Csym'] if config == 'scipy'
+                                    else ['Csym', 'Csym', 'C', 'L']))
         if kind == 'L':
             end = cur + L * d_in
             specs.append(['L', gen.P(cur), gen.P(end)])
@@ -60,6 +62,11 @@ def path_case(draw):
             b = L * draw(gen.floats_in(0.15, 0.5))
             c1 = cur + a * d_in
             c2 = end - b * d_out
+            if kind == 'Csym':
+                # a point-symmetric S-curve: its mid-point lies on its chord (the coarsest chord approximations of its length coincide)
+                end = cur + L * d_in
+                w = a * complex(0.6, 0.8) * (d_in / abs(d_in))
+                c1, c2 = cur + w, end - w
             if kind == 'Cloop':
                 # a loop: the cubic returns to its own start point (chord 0, positive length)
                 end = cur
@@ -99,7 +106,7 @@ def path_case(draw):
 
 
 def strategy(tier, config):
-    return path_case()
+    return path_case(config)
 
 
 def end_tangent(spec, end):
